@@ -613,18 +613,18 @@ Fixpoint assemble (ins : list vh_in) (names claimed known : list string) : list 
 (* ------------------------------------------------------------------ mesh-level specification *)
 
 (* What the mesh configuration says about a request a sidecar originates on listener port
-   [c_port c]: the first (oldest) VirtualService naming the authority decides; without one, a
-   registry service gets its default route.  (VirtualService hosts are exact here; a
-   VirtualService host outside the registry is honoured on port 80 or when the VirtualService
-   also names a registry service of this port - route.go buildSidecarVirtualHostsForVirtualService.) *)
-Definition is_svc (svcs : list (string * list N)) (p : N) (h : string) : bool :=
-  existsb (fun s => String.eqb (lower (fst s)) h && existsb (N.eqb p) (snd s)) svcs.
+   [c_port c] (VirtualServices oldest first, every one of them with rules for mesh sidecars).
 
-Definition vs_applies (svcs : list (string * list N)) (p : N) (h : string)
-           (v : list string * list rule) : bool :=
-  mem h (map lower (fst v))
-  && (is_svc svcs p h || N.eqb p 80 || existsb (fun h' => is_svc svcs p (lower h')) (fst v)).
+   An authority that denotes a registry service of this port (alternative Kubernetes names are
+   resolved for the proxy's OWN namespace) is governed by the VirtualService that names the
+   service most specifically: an exact host beats every wildcard, a longer wildcard beats a
+   shorter one, the oldest wins a tie; without one the service gets its default route.
 
+   Any other authority is an opaque name: VirtualService hosts that match no registry service of
+   this port (exact, or wildcard) are honoured literally - on port 80, or when the VirtualService
+   also governs a registry service of this port (route.go buildSidecarVirtualHostsForVirtualService);
+   the most specific such host wins.  Otherwise [fallback] (PassthroughCluster or 502, by
+   outboundTrafficPolicy, on a port route; nothing when only the virtual hosts are looked at). *)
 (* which host an authority denotes for a proxy in namespace [ns] of a cluster.local Kubernetes
    mesh: a trailing dot and the port are dropped; "name" is name.<ns>.svc.cluster.local (the
    proxy's OWN namespace), "name.ns2" and "name.ns2.svc" are completed; anything else is itself *)
@@ -647,20 +647,96 @@ Definition denotes (ns h : string) : string :=
        | _ => h
        end.
 
-Definition mesh_sem (c : ctx) (svcs : list (string * list N)) (vss : list (list string * list rule))
-           (q : request) : option action :=
-  (* the alternative names exist for registry services of this port only; a VirtualService host
-     outside the registry is an opaque name matched literally *)
-  let lit := strip_port (lower (q_authority q)) in
-  let h := if is_svc svcs (c_port c) (denotes (c_ns c) lit) then denotes (c_ns c) lit else lit in
-  match find (vs_applies svcs (c_port c) h) vss with
-  | Some v => vs_sem c (snd v) q
-  | None =>
-      match find (fun s => String.eqb (lower (fst s)) h && existsb (N.eqb (c_port c)) (snd s)) svcs with
-      | Some s => Some (ADist [({| ck_port := c_port c; ck_subset := ""; ck_host := fst s |}, 1%N)])
-      | None => None
-      end
+Definition is_wild (h : string) : bool := match h with String "*" _ => true | _ => false end.
+Definition wild_matches (pat h : string) : bool := is_wild pat && suffix (wild_tail pat) h.
+
+Definition vsvc := (list string * list rule)%type.
+
+Definition svc_on (p : N) (s : string * list N) : bool := existsb (N.eqb p) (snd s).
+Definition is_svc (svcs : list (string * list N)) (p : N) (h : string) : bool :=
+  existsb (fun s => String.eqb (lower (fst s)) h && svc_on p s) svcs.
+
+Definition indexed {A} (l : list A) : list (nat * A) := combine (seq 0 (List.length l)) l.
+
+(* keep the candidate with the strictly larger rank: the first (oldest) wins ties *)
+Definition better (best : option (nat * nat)) (i rank : nat) : option (nat * nat) :=
+  match best with
+  | Some (_, r) => if Nat.ltb r rank then Some (i, rank) else best
+  | None => Some (i, rank)
   end.
+
+(* the VirtualService (index) governing registry host [h] *)
+Definition owner (vss : list vsvc) (h : string) : option nat :=
+  match find (fun iv => mem h (map lower (fst (snd iv)))) (indexed vss) with
+  | Some iv => Some (fst iv)
+  | None =>
+      option_map fst
+        (fold_left (fun best iv =>
+                      fold_left (fun best pat =>
+                                   if wild_matches (lower pat) h
+                                   then better best (fst iv) (String.length pat) else best)
+                                (fst (snd iv)) best)
+                   (indexed vss) None)
+  end.
+
+Definition owner_is (vss : list vsvc) (h : string) (i : nat) : bool :=
+  match owner vss h with Some j => Nat.eqb i j | None => false end.
+
+(* VirtualService [i] governs some registry service of port [p] *)
+Definition has_reg (svcs : list (string * list N)) (p : N) (vss : list vsvc) (i : nat) (v : vsvc) : bool :=
+  existsb (fun pat =>
+             let lp := lower pat in
+             if is_wild lp
+             then existsb (fun s => svc_on p s && wild_matches lp (lower (fst s))
+                                    && owner_is vss (lower (fst s)) i) svcs
+             else is_svc svcs p lp) (fst v).
+
+(* a VirtualService host that matches no registry service of port [p] *)
+Definition nonreg_pat (svcs : list (string * list N)) (p : N) (lp : string) : bool :=
+  if is_wild lp
+  then negb (existsb (fun s => svc_on p s && wild_matches lp (lower (fst s))) svcs)
+  else negb (is_svc svcs p lp).
+
+(* how specifically host pattern [lp] names the opaque authority [lit]: 0 = not at all *)
+Definition covers (lp lit : string) : nat :=
+  if is_wild lp
+  then if (wild_matches lp lit && Nat.ltb (String.length (wild_tail lp)) (String.length lit))%bool
+       then String.length lp else O
+  else if String.eqb lp lit then S (String.length lit) else O.
+
+Definition nonreg_owner (svcs : list (string * list N)) (p : N) (vss : list vsvc) (lit : string) : option nat :=
+  option_map fst
+    (fold_left (fun best iv =>
+                  if (N.eqb p 80 || has_reg svcs p vss (fst iv) (snd iv))%bool
+                  then fold_left (fun best pat =>
+                                    let lp := lower pat in
+                                    if (nonreg_pat svcs p lp && negb (Nat.eqb (covers lp lit) 0))%bool
+                                    then better best (fst iv) (covers lp lit) else best)
+                                 (fst (snd iv)) best
+                  else best)
+               (indexed vss) None).
+
+Definition rules_of (vss : list vsvc) (i : nat) : list rule :=
+  match nth_error vss i with Some v => snd v | None => [] end.
+
+Definition mesh_sem (c : ctx) (svcs : list (string * list N)) (vss : list vsvc)
+           (fallback : option action) (q : request) : option action :=
+  let lit := strip_port (lower (q_authority q)) in
+  let d := denotes (c_ns c) lit in
+  if is_svc svcs (c_port c) d then
+    match owner vss d with
+    | Some i => vs_sem c (rules_of vss i) q
+    | None =>
+        match find (fun s => String.eqb (lower (fst s)) d && svc_on (c_port c) s) svcs with
+        | Some s => Some (ADist [({| ck_port := c_port c; ck_subset := ""; ck_host := fst s |}, 1%N)])
+        | None => None
+        end
+    end
+  else
+    match nonreg_owner svcs (c_port c) vss lit with
+    | Some i => vs_sem c (rules_of vss i) q
+    | None => fallback
+    end.
 
 (* ------------------------------------------------------------------ gateway-level specification *)
 
